@@ -572,6 +572,13 @@ bool Instance::configure_tx_txin() {
         }
     } else {
         // legacy
+        int witver;
+        std::vector<unsigned char> witprog;
+        if (scriptPubKey.IsWitnessProgram(witver, witprog)) {
+            // BIP141: a witness program cannot be spent with an empty witness
+            fprintf(stderr, "the output is a witness program (version %d), but the input has no witness\n", witver);
+            return false;
+        }
         sigver = SigVersion::BASE;
         script = scriptSig;
         successor_script = scriptPubKey;
